@@ -480,6 +480,8 @@ def run(ctx):
     opaque_arguments(ctx, uberjob)
     equal_callables(ctx, uberjob)
     containers_of_nodes(ctx, uberjob)
+    decorated_callables(ctx, uberjob)
+    rejected_calls(ctx, uberjob)
     import planlevel
     planlevel.equal_constants(ctx, uberjob, False, lambda key, what, replay: ctx.fail(key, what, replay))
     timing(ctx, uberjob)
@@ -1218,3 +1220,124 @@ def containers_of_nodes(ctx, uberjob):
             if res != [2, ["x", "y"], ["x", "y"]]:
                 ctx.fail("containers:mentioned-twice", "the %s of the same two nodes is given to a call that empties it, to a second call and to the output: run gave %r; direct evaluation "
                          "gives [2, ['x', 'y'], ['x', 'y']] (each mention is its own container)" % (kind, res), {"container": kind, "max_workers": workers})
+
+
+def decorated_callables(ctx, uberjob):
+    """The call function is the very callable given to plan.call - also when it is a decorated function (functools.wraps / lru_cache /
+    partial / an object carrying __wrapped__, __func__ or func attributes that point at ANOTHER function), under every retry setting."""
+    import functools
+
+    def in_percent(fn):
+        @functools.wraps(fn)
+        def wrapper(percent, *a, **k):
+            return fn(percent / 100, *a, **k)
+        return wrapper
+
+    @in_percent
+    def scale(fraction, amount, *, bonus=0):
+        return fraction * amount + bonus
+
+    @functools.lru_cache(maxsize=None)
+    def square(x):
+        return x * x
+
+    def raw(x):
+        return ("raw", x)
+
+    class Facade:
+        """a callable object that advertises other functions under the attribute names wrappers use"""
+        __wrapped__ = staticmethod(raw)
+        __func__ = staticmethod(raw)
+        func = staticmethod(raw)
+        fn = staticmethod(raw)
+
+        def __call__(self, x):
+            return ("facade", x)
+
+    def plain(x):
+        return ("plain", x)
+    plain.__wrapped__ = raw      # e.g. set by a tracing tool
+
+    facade = Facade()
+    expected = [scale(50, 8, bonus=1), square(scale(25, 16)), facade(3), plain(4), functools.partial(scale, 10)(30)]
+    for retry in (None, 1, 2, 3):
+        for workers in (1, 4):
+            for scheduler in ("default", "random"):
+                plan = uberjob.Plan()
+                out = [plan.call(scale, 50, 8, bonus=1), plan.call(square, plan.call(scale, 25, 16)), plan.call(facade, 3), plan.call(plain, 4),
+                       plan.call(functools.partial(scale, 10), 30)]
+                ctx.case(("decorated-callables", retry, workers, scheduler))
+                try:
+                    got = uberjob.run(plan, output=out, retry=retry, max_workers=workers, scheduler=scheduler, progress=None)
+                except BaseException as e:      # noqa
+                    got = "raised %s: %r" % (type(e).__name__, getattr(e, "__cause__", None))
+                if got != expected:
+                    ctx.fail("decorated-callables", "retry=%r, max_workers=%d, scheduler=%s: [scale(50, 8, bonus=1) with scale wrapped by functools.wraps, lru_cached square of it, "
+                             "a callable object with a __wrapped__ attribute, a function with __wrapped__ set, a partial] gave %r; calling them directly gives %r"
+                             % (retry, workers, scheduler, got, expected), {"retry": retry, "max_workers": workers, "scheduler": scheduler})
+
+
+def rejected_calls(ctx, uberjob):
+    """A plan-building call that RAISES (arguments that do not bind, a self-referential container, a node of another plan, an unpack
+    length that is not a number ...) is caught by the user, who keeps building on the nodes made before: the nodes already in the plan -
+    consumed or not yet consumed by anything - still evaluate to what straightforward evaluation yields."""
+    def inc(x):
+        return x + 1
+
+    def pair(a, b=10):
+        return (a, b)
+
+    def consume(values, extra):
+        return len(values) + len(extra)
+    loop = []
+    loop.append(loop)
+    dloop = {}
+    dloop["self"] = dloop
+    other = uberjob.Plan()
+    foreign = other.call(inc, 1)
+
+    attempts = {
+        "self-referential list argument": lambda plan, parts, p: plan.call(consume, parts, loop),
+        "self-referential dict nested in an argument": lambda plan, parts, p: plan.call(consume, [parts, {"k": (p, dloop)}], 1),
+        "arguments that do not bind": lambda plan, parts, p: plan.call(consume, parts, p, 3),
+        "unknown keyword": lambda plan, parts, p: plan.call(consume, parts, nope=p),
+        "gather of a self-referential list": lambda plan, parts, p: plan.gather([parts, p, loop]),
+        "node of another plan": lambda plan, parts, p: plan.call(consume, parts, [p, foreign]),
+        "unpack with a length that is no number": lambda plan, parts, p: plan.unpack(parts, "three"),
+        "a function that is not callable": lambda plan, parts, p: plan.call(None, parts, p),
+    }
+    for name, attempt in attempts.items():
+        for when in ("before the consumers exist", "after a consumer exists"):
+            for workers in (1, 4):
+                for scheduler in ("default", "random"):
+                    plan = uberjob.Plan()
+                    a = plan.call(inc, 1)
+                    b = plan.call(inc, 2)
+                    parts = plan.gather([a, b, 7])
+                    p = plan.call(pair, a, b=b)
+                    early = plan.call(len, parts) if when.startswith("after") else None
+                    try:
+                        attempt(plan, parts, p)
+                        raised = None
+                    except BaseException as e:      # noqa
+                        raised = type(e).__name__
+                    ctx.case(("rejected-call", name, when, workers, scheduler))
+                    ctx.count("rejected_call_outcome", "%s: %s" % (name, raised or "accepted"))
+                    if raised is None:
+                        continue        # the library accepted it: nothing to check here
+                    total = plan.call(sum, parts)
+                    q = plan.call(list, p)
+                    out = {"total": total, "q": q, "parts": parts, "p": p}
+                    expected = {"total": 12, "q": [2, 3], "parts": [2, 3, 7], "p": (2, 3)}
+                    if early is not None:
+                        out["early"], expected["early"] = early, 3
+                    try:
+                        got = core.call_watched(lambda: uberjob.run(plan, output=out, max_workers=workers, scheduler=scheduler, progress=None), timeout=30)
+                    except core.Hang:
+                        got = "did not return within 30 s"
+                    except BaseException as e:      # noqa
+                        got = "raised %s: %r" % (type(e).__name__, getattr(e, "__cause__", None))
+                    if got != expected:
+                        ctx.fail("rejected-call", "a = inc(1); b = inc(2); parts = gather([a, b, 7]); p = pair(a, b=b); then a plan-building call with %s raised %s and was caught (%s); "
+                                 "sum(parts), list(p), parts, p then evaluate to %r under max_workers=%d, scheduler=%s; straightforward evaluation gives %r"
+                                 % (name, raised, when, got, workers, scheduler, expected), {"attempt": name, "when": when, "max_workers": workers, "scheduler": scheduler})
